@@ -698,6 +698,9 @@ def zero_init(ctx):
                 if isinstance(n, ast.Call) and isinstance(n.func, ast.Attribute) and isinstance(n.func.value, ast.Name) and n.func.value.id == "self" \
                         and n.func.attr in c.methods:
                     todo.append(c.methods[n.func.attr])
+                # private module-level helpers (a generator that yields the zeroed buffers for both __init__ and clear)
+                if isinstance(n, ast.Call) and isinstance(n.func, ast.Name) and n.func.id.startswith("_") and n.func.id in f.module.functions:
+                    todo.append(f.module.functions[n.func.id])
         allocs = [norm(n.func) for n in nodes if isinstance(n, ast.Call) and isinstance(n.func, ast.Attribute)
                   and n.func.attr in ("zeros", "empty", "ones", "full", "zeros_like", "empty_like")]
         ok = bool(allocs) and all(a.endswith("zeros") for a in allocs)
